@@ -16,10 +16,14 @@ EXTENDS MacroRef, Json, CSV, IOUtils
 
 CONSTANTS Families,    \* family ids to enumerate
           DynLen,      \* number of free lines of the dynamic family
-          CdLen        \* number of free lines of the command-line family
+          CdLen,       \* number of free lines of the command-line family
+          SizeFo, SizeVa, SizeCh, SizeNe   \* body lengths (items) in the static families fo, va, ch, ne
 
 VARIABLES fam, d0, prog
 vars == <<fam, d0, prog, defs, pushStack, out>>
+
+NoExt == <<>>      \* the enumeration uses only the spellings MacroRef knows
+OneSpace == " "
 
 \* ---- building bodies from items ---------------------------------------------
 RECURSIVE Flat(_)
@@ -62,7 +66,7 @@ FoTexts == << <<"F","(","a",")">>, <<"F","(","O",")">>, <<"F","(","F","(","a",")
               <<"O","(","a",")">>, <<"F","a">>, <<"F","(","a",")","O">>,
               <<"F","(","\"O,F\"",")">>, <<"F","(","'F'",")","F">> >>
 FoFam == Static(<< Fn("F", <<"x">>, One({"a", "x", "O", "F", "(", ")", "#", "##", ","}), 3),
-                   Obj("O", One({"a", "O", "F", "(", ")", "##", ","}), 2) >>, FoTexts)
+                   Obj("O", One({"a", "O", "F", "(", ")", "##", ","}), SizeFo) >>, FoTexts)
 
 \* st: # and ## on two parameters, arguments empty / parenthesised / literals / nested calls
 StTexts == << <<"F","(","a",",","b",")">>, <<"F","(","O",",","O",")">>, <<"F","(",",",")">>,
@@ -85,13 +89,13 @@ VaFam == Static(<< Obj("O", {<<>>, <<"1">>, <<"a", ",", "b">>}, 1),
                                   <<"[", "__VA_ARGS__", "]">>}, 2),
                    Va("H", <<"x">>, {<<"x">>, <<"__VA_ARGS__">>, <<"#", "__VA_ARGS__">>, <<",", "##", "__VA_ARGS__">>,
                                      <<"__VA_OPT__", "(", ",", ")">>, <<"__VA_OPT__", "(", "x", ")">>, <<"a">>, <<"#", "x">>,
-                                     <<"G", "(", "__VA_ARGS__", ")">>}, 2) >>, VaTexts)
+                                     <<"G", "(", "__VA_ARGS__", ")">>}, SizeVa) >>, VaTexts)
 
 \* ch: chains of object-like macros through a function-like one
 ChTexts == << <<"O">>, <<"P">>, <<"G","(","O",")">>, <<"G","(","G","(","a",")",")">>, <<"G","(","P",")","+","O">>,
               <<"O","P","O">>, <<"G","(",")">>, <<"G">>, <<"G","(","\"G(1)\"",")">>, <<"P","(","1",")">> >>
 ChFam == Static(<< Obj("O", {<<"a">>, <<"1">>, <<"+">>, <<"O">>, <<"P">>, <<"G", "(", "a", ")">>, <<"G", "(", "O", ")">>, <<"G", "(", "P", ")">>, <<"G">>}, 2),
-                   Obj("P", {<<"a">>, <<"O">>, <<"P">>, <<"+">>, <<"G", "(", "O", ")">>, <<"G">>}, 1),
+                   Obj("P", {<<"a">>, <<"O">>, <<"P">>, <<"+">>, <<"G", "(", "O", ")">>, <<"G">>}, SizeCh),
                    Fn("G", <<"x">>, {<<"x">>, <<"P">>, <<"(", "x", ")">>, <<"#", "x">>, <<"G", "(", "x", ")">>, <<"O", "x">>, <<"x", "+">>}, 1) >>, ChTexts)
 
 \* ne: nested calls between F(x) and G(x, y)
@@ -102,11 +106,11 @@ NeTexts == << <<"F","(","a",")">>, <<"G","(","a",",","b",")">>, <<"F","(","G","(
 NeFam == Static(<< Fn("F", <<"x">>, {<<"x">>, <<"a">>, <<"(", "x", ")">>, <<"G", "(", "x", ",", "a", ")">>,
                                      <<"G", "(", "a", ",", "x", ")">>, <<"F", "(", "x", ")">>, <<"G">>}, 2),
                    Fn("G", <<"x", "y">>, {<<"x">>, <<"y">>, <<"+">>, <<",">>, <<"F", "(", "x", ")">>, <<"F", "(", "y", ")">>,
-                                          <<"G", "(", "y", ",", "x", ")">>, <<"F">>, <<"[", "x", "]">>}, 2) >>, NeTexts)
+                                          <<"G", "(", "y", ",", "x", ")">>, <<"F">>, <<"[", "x", "]">>}, SizeNe) >>, NeTexts)
 
 \* dy: #undef, redefinition, push_macro / pop_macro between uses
-DyLines == {DefLine("O", FALSE, <<>>, FALSE, b) : b \in {<<"1">>, <<"2">>, <<"O", "+", "1">>, <<"F", "(", "2", ")">>}}
-           \cup {DefLine("F", TRUE, <<"x">>, FALSE, b) : b \in {<<"x", "O">>, <<"(", "x", ")">>}}
+DyLines == {DefLine("O", FALSE, <<>>, FALSE, b) : b \in {<<"1">>, <<"2">>, <<"O", "+", "1">>}}
+           \cup {DefLine("F", TRUE, <<"x">>, FALSE, <<"x", "O">>)}
            \cup {Line(k, m) : k \in {"undef", "push", "pop"}, m \in {"O", "F"}}
            \cup {TextLine(<<"O">>), TextLine(<<"F", "(", "O", ")">>)}
 DyTexts == << <<"O">>, <<"F", "(", "O", ")">>, <<"F">> >>
@@ -149,6 +153,9 @@ Next == /\ Len(prog) < FamLen(fam)
         /\ UNCHANGED <<fam, d0>>
 
 Spec == Init /\ [][Next]_vars
+
+\* the program determines the rest of the state: fingerprint the program only
+ProgView == <<fam, d0, prog>>
 
 \* ---- dump ---------------------------------------------------------------------
 DumpFile == IF "VERIF_DUMP" \in DOMAIN IOEnv THEN IOEnv.VERIF_DUMP ELSE ""
